@@ -28,6 +28,7 @@ import (
 	"sort"
 	"strings"
 
+	"golang.org/x/tools/go/packages"
 	"golang.org/x/tools/go/ssa"
 )
 
@@ -551,6 +552,71 @@ func (P *Program) renamedFunctions(byRel map[string]*ssa.Function, shapes map[st
 		if len(cands) == 1 {
 			out[key] = cands[0]
 			P.Rebound = append(P.Rebound, fmt.Sprintf("contract %s bound to %s (function renamed)", c.Name, cands[0].RelString(fnPkg(cands[0]))))
+		}
+	}
+	return out
+}
+
+
+// typeRenames: a struct type of the snapshot that no longer exists, while exactly one new
+// struct type of the same package has the very same field list: old name -> new name.
+func typeRenames(pkgs []*packages.Package, shapes map[string]fnShape) map[string]string {
+	out := map[string]string{}
+	if shapes == nil {
+		return out
+	}
+	q := func(p *types.Package) string { return p.Name() }
+	for _, pkg := range pkgs {
+		if !inModule(pkg.Types) {
+			continue
+		}
+		sc := pkg.Types.Scope()
+		cur := map[string]string{} // name -> field signature
+		for _, n := range sc.Names() {
+			tn, ok := sc.Lookup(n).(*types.TypeName)
+			if !ok {
+				continue
+			}
+			st, ok := tn.Type().Underlying().(*types.Struct)
+			if !ok {
+				continue
+			}
+			var fs []string
+			for i := 0; i < st.NumFields(); i++ {
+				fs = append(fs, st.Field(i).Name()+" "+types.TypeString(st.Field(i).Type(), q))
+			}
+			cur[n] = strings.Join(fs, ";")
+		}
+		prefix := "struct::" + pkg.Types.Path() + "."
+		var keys []string
+		for k := range shapes {
+			if strings.HasPrefix(k, prefix) {
+				keys = append(keys, k)
+			}
+		}
+		sort.Strings(keys)
+		for _, k := range keys {
+			oldName := strings.TrimPrefix(k, prefix)
+			if _, still := cur[oldName]; still {
+				continue
+			}
+			var fs []string
+			for _, f := range shapes[k].Locals {
+				fs = append(fs, f[0]+" "+strings.ReplaceAll(f[1], oldName, "\x00"))
+			}
+			sig := strings.Join(fs, ";")
+			var cands []string
+			for n, s2 := range cur {
+				if _, known := shapes[prefix+n]; known {
+					continue
+				}
+				if strings.ReplaceAll(s2, n, "\x00") == sig && len(fs) > 0 {
+					cands = append(cands, n)
+				}
+			}
+			if len(cands) == 1 {
+				out[oldName] = cands[0]
+			}
 		}
 	}
 	return out
